@@ -12,4 +12,14 @@ def run(tier):
     if isinstance(res, int):
         return res
     ctx, cases, mo, io = res
+    # directed scenario the program language cannot express (JoinHandles are task-local there): a JoinHandle polled once by
+    # one task and then awaited by another must wake the last poller
+    probes = ["probe jhmove 0"]
+    po = ctx.run_impl("prog", probes)
+    ctx.evaluations += len(probes)
+    for c, o in zip(probes, po):
+        if not o.startswith("PROBE OK"):
+            ctx.violation({"layer": "prog", "cases": [c], "implementation_answer": o,
+                           "why": "a JoinHandle that was polled by one task and is then awaited by another never resolves: the completion wakes a task that no longer awaits it"})
+    ctx.dist("probes.jhmove", len(probes))
     return ctx.finish()
